@@ -23,9 +23,11 @@ JUNK = ("addjunk", "changejunk")
 
 # path alphabet: shared prefixes, kind conflicts (a / a.b / a.b.c, time = pre-seeded share,
 # meta = pre-seeded node), empty segments, leading / trailing dots, through-a-share paths
+# ... and paths that REPEAT a segment name at a deeper level (a.b.a.c, b.b.b.a, meta.x.meta)
 A_FULL = ["a", "a.b", "a.b.c", "a.c", "b", ".a", "a.b.", "..a.b..", "a..b", "c..d", "c.d..e",
-          ".", "", "..", "time", "time.value", "time.value.x", "meta.x", ".time.", "c.d"]
-A_MID = ["a", "a.b", "a.b.c", ".a.", "..a.b", "a..b", "c.d..e", ".", "", "time.value", "meta.x", "c.d"]
+          ".", "", "..", "time", "time.value", "time.value.x", "meta.x", ".time.", "c.d",
+          "a.b.a.c", "b.b.b.a", ".a.a.", "meta.x.meta.y", "a.b.a"]
+A_MID = ["a", "a.b", "a.b.c", ".a.", "..a.b", "a..b", "c.d..e", ".", "", "time.value", "meta.x", "c.d", "a.b.a.c", "b.b.b.a"]
 A_SMALL = ["a", "a.b", ".a.b.", "a.b.c", "c..d", "."]
 A_TINY = ["a", "a.b", "c..d"]
 
@@ -428,10 +430,10 @@ def sequences(ctx):
 
 def run(ctx):
     ctx.rule = ("op sequences (add/addNode/change/create/createNode/fetch/fetchShare/fetchNode, plus non-Share "
-                "arguments) over a path alphabet with shared prefixes, kind conflicts, empty segments, dotted "
+                "arguments) over a path alphabet with shared prefixes, kind conflicts, empty segments, repeated segment names along one path, dotted "
                 "variants and paths through a share, run on a real Store and on the Coq model; every result and "
                 "the full tree dump (odict order, node names, share identity + name) compared after EVERY step "
-                "inside Coq; exhaustive: length 1 over 20 names, length 2 over 12 names (first op a mutator), "
+                "inside Coq; exhaustive: length 1 over 25 names, length 2 over 14 names (first op a mutator), "
                 "length 3 over 3 (quick) / 6 (thorough) names, length 4 over 3 names with add/addNode/change as the first three ops (thorough); seeded random "
                 "sequences of 5..40 ops; non-trivial = at least one accepted mutation and one rejection or lookup hit")
     ctx.assumptions = [
